@@ -15,3 +15,6 @@ func AllocU(size uintptr) unsafe.Pointer {
 	b := make([]byte, size)
 	return unsafe.Pointer(&b[0])
 }
+
+// maxAlloc as in stubs.go (64-bit)
+const maxAlloc = 1 << 48
